@@ -98,20 +98,31 @@ def witness_scan(text, bg, min_ratio):
     candidates inside the margins exist."""
     L0, C0, H0 = refs.rgb_to_oklch(text)
     seen = {}
+    hits = {}
     marginal = False
-    for k in range(-400, 401):
-        L = L0 + k * 1e-4
-        if L < 0 or L > 1:
-            continue
-        c = refs.oklch_to_rgb(L, C0, H0)
-        if c in seen or c == tuple(text):
-            continue
-        d = refs.ciede2000(text, c)
-        r = refs.wcag_ratio(c, bg)
-        seen[c] = (d, r)
+    # outward from the text's own lightness in both directions (steps of 1e-4), until the colours are clearly beyond
+    # dE 1.5 or the line ends; near black the OKLCH lightness of an 8-bit step is large, so the walk can be long
+    for sgn in (1, -1):
+        for k in range(0 if sgn > 0 else 1, 1600):
+            L = L0 + sgn * k * 1e-4
+            if L < 0 or L > 1:
+                break
+            c = refs.oklch_to_rgb(L, C0, H0)
+            if c in seen or c == tuple(text):
+                if c in seen:
+                    hits[c] += 1
+                continue
+            d = refs.ciede2000(text, c)
+            r = refs.wcag_ratio(c, bg)
+            seen[c] = (d, r)
+            hits[c] = 1
+            if d > 1.7:
+                break
     good = [(c, d) for c, (d, r) in seen.items() if d <= 1.5 - 0.02 and r >= min_ratio + 0.05 + 0.005]
     loose = [c for c, (d, r) in seen.items() if d <= 1.5 + 0.02 and r >= min_ratio + 0.05 - 0.005]
-    if len(good) >= 2:
+    # a single witness counts when it is not an accident of the sampling grid: two distinct colours, or one colour that a
+    # whole stretch of the lightness line maps to (>= 12 consecutive samples = 1.2e-3 in L; the end points white / black)
+    if len(good) >= 2 or (len(good) == 1 and hits[good[0][0]] >= 12):
         c, d = min(good, key=lambda x: x[1])
         return (c, int(round(d * 10000)))
     if loose:
@@ -423,6 +434,58 @@ def hairline_results(rnd, nscan):
         t, b = near_threshold(rnd, rnd.choice((3.0, 4.5, 7.0)), (0.02, 0.35))
         jobs.append((t, b, large, vr, 0 if k % 3 else 1))
     return [j for j in vlib.pool_map(_scan_hairline, jobs, chunksize=16) if j]
+
+
+def extreme_only(rnd, tries=20000):
+    """(text, bg, very_readable, large): the text is a hair away from white (or black) and only the extreme itself - the
+    end point of the text's lightness line, reached only when every clipped channel is rounded to 255 (or 0) - clears the
+    requirement by the 0.05 margin: the background is picked so that the extreme clears it by 0.056..1.2 %"""
+    for _ in range(tries):
+        large, vr = bool(rnd.getrandbits(1)), bool(rnd.getrandbits(1))
+        tq = REQ[(large, vr)]
+        white = bool(rnd.getrandbits(1))
+        ext = (255, 255, 255) if white else (0, 0, 0)
+        bg = rand_colour(rnd) if rnd.random() < 0.7 else (rnd.randrange(256),) * 3
+        r = refs.wcag_ratio(ext, bg)
+        if not (tq + 0.056 <= r <= max(tq * 1.012, tq + 0.09)):
+            continue
+        for _k in range(30):
+            if white:
+                g = rnd.randrange(247, 254)
+                c = [g, g, g]
+                if rnd.random() < 0.4:
+                    c[rnd.randrange(3)] = min(255, g + rnd.choice([1, 2]))
+            else:
+                g = rnd.randrange(1, 6)
+                c = [g, g, g]
+                if rnd.random() < 0.4:
+                    c[rnd.randrange(3)] = max(0, g - 1)
+            c = tuple(c)
+            if refs.wcag_ratio(c, bg) < tq - 0.01 and refs.ciede2000(c, ext) <= 1.42:
+                return c, bg, vr, large
+    a, b = near_threshold(rnd, 4.5, (0.0, 0.05))
+    return a, b, False, False
+
+
+_RAZOR = None
+
+
+def razor_all():
+    """catalogue of pairs within 3e-7 of a label threshold (tools/gen_razor_pairs.py); inputs only"""
+    global _RAZOR
+    if _RAZOR is None:
+        with open(os.path.join(os.path.dirname(os.path.abspath(__file__)), "razor_pairs.json")) as f:
+            _RAZOR = json.load(f)
+    return _RAZOR
+
+
+def razor(rnd, t=None, side=None):
+    """(text, bg) with ratio within 3e-7 of t, on the given side ('above'/'below'), text/background roles random"""
+    cat = razor_all()
+    keys = [k for k in sorted(cat) if (t is None or k.startswith(f"{float(t)}_")) and (side is None or f"_{side}_" in k)]
+    a, b = rnd.choice(cat[rnd.choice(keys)])
+    a, b = tuple(a), tuple(b)
+    return (a, b) if rnd.getrandbits(1) else (b, a)
 
 
 def neargrey(rnd):
